@@ -576,7 +576,83 @@ fn part_effects(ctx: &Ctx, sink: &mut Sink) {
     }
 }
 
+/// (10) one name for *several* occurrences of the same subexpression: `X .== X` against `t = X`, `t .== t`, against
+/// `(p => p .== p)(X)` and against an alias of the name (`u = t`, `t .== u`). Naming makes the occurrences one heap cell
+/// where the inline form has one cell per occurrence, so anything that looks at cell identity instead of contents - an
+/// early exit of .== / unique / includes on "the same cell" - shows when the contents are not equal to themselves (NaN
+/// anywhere inside) or are not comparable.
+fn part_shared_name(ctx: &Ctx, sink: &mut Sink) {
+    let nan_elems = [
+        "(0 / 0)", "[0 / 0]", "{a: 0 / 0}", "[1, [0 / 0]]", "{k: [0 / 0], j: 1}", "[-(0 / 0)]", "[inf - inf, 2]", "[sqrt(-1)]", "{a: {b: 0 / 0}}", "[[], 0 / 0]",
+        "[q => q]", "{f: q => q}", "[1, \"a\"]", "[null, 0 / 0]", "(q => q + 1)",
+    ];
+    let ctxs: [&str; 22] = [
+        "X .== X", "X .!= X", "X == X", "X != X", "X .<= X", "X .>= X", "X .< X", "unique([X, X])", "len(unique([X, X, X]))", "includes([X], X)", "includes([0, X], X)",
+        "[X, 1] .== [X, 1]", "{k: X} .== {k: X}", "{k: X, j: 1} .== {j: 1, k: X}", "[[X]] .== [[X]]", "unique([[X], [X], 1])", "sort([X, X])", "sort_by([X, X], e => e)",
+        "[X] .== [X, X]", "any([X] via (e => e .== X))", "all([X, X] via (e => e .== X))", "if X .== X then \"same\" else \"different\"",
+    ];
+    let n = ctx.budget(1_200, 24_000);
+    for i in 0..n {
+        if !ctx.mine(i) {
+            continue;
+        }
+        let mut r = Rng::derive(ctx.seed, "c02-shared", i);
+        let x = if (i as usize) < nan_elems.len() * ctxs.len() {
+            nan_elems[(i as usize) / ctxs.len()].to_string()
+        } else if r.below(3) == 0 {
+            heap_elem(&mut r, 0)
+        } else {
+            let a = *r.pick(&nan_elems);
+            match r.below(4) {
+                0 => format!("[{}, {}]", a, heap_elem(&mut r, 1)),
+                1 => format!("{{z: {}, y: {}}}", heap_elem(&mut r, 1), a),
+                2 => format!("[{}]", a),
+                _ => a.to_string(),
+            }
+        };
+        let c = if (i as usize) < nan_elems.len() * ctxs.len() { ctxs[(i as usize) % ctxs.len()] } else { *r.pick(&ctxs) };
+        let inline_src = c.replace('X', &format!("({})", x));
+        let base = {
+            let s = Sess::new();
+            s.rout(&s.eval(&format!("res = {}", inline_src)))
+        };
+        sink.case(&format!("c02s|{}|{}", c, x), matches!(base, ROut::Ok(_)));
+        let forms: [(&str, Vec<String>, String); 4] = [
+            ("one-name", vec![format!("t_sh = {}", x)], format!("res = {}", c.replace('X', "t_sh"))),
+            ("name-and-alias", vec![format!("t_sh = {}", x), "u_sh = t_sh".to_string()], format!("res = {}", c.replacen('X', "t_sh", 1).replace('X', "u_sh"))),
+            ("parameter", vec![], format!("res = (p_sh => ({}))({})", c.replace('X', "p_sh"), x)),
+            ("do-local", vec![], format!("res = do {{\n l_sh = {}\n return {}\n}}", x, c.replace('X', "l_sh"))),
+        ];
+        for (form, binds, stmt) in forms.iter() {
+            let s2 = Sess::new();
+            let mut ok = true;
+            for b in binds.iter() {
+                if !matches!(s2.rout(&s2.eval(b)), ROut::Ok(_)) {
+                    ok = false;
+                }
+            }
+            if !ok {
+                continue;
+            }
+            let got = s2.rout(&s2.eval(stmt));
+            sink.count("shared_name_abstractions", 1);
+            if !base.agrees(&got) {
+                sink.viol(
+                    &format!("let-abstraction-differs shared-name form={}", form),
+                    "binding a subexpression to a fresh name and using the name in place of each of its occurrences changes the result",
+                    json!({"inline": inline_src, "bindings": binds, "abstracted": stmt, "inline_result": base.show(), "abstracted_result": got.show()}),
+                );
+                break;
+            }
+        }
+        if sink.want_sample() {
+            sink.sample(json!({"part": "shared-name abstraction", "inline": inline_src, "result": base.show()}));
+        }
+    }
+}
+
 pub fn run(ctx: &Ctx, sink: &mut Sink) {
+    part_shared_name(ctx, sink);
     part_effects(ctx, sink);
     part_inputs(ctx, sink);
     part_directed(ctx, sink);
